@@ -40,7 +40,7 @@ RULE = (
 KINDS = ("msg1", "msg2", "parse", "reader")
 # operations whose observation must equal the reference of ANOTHER kind: the message a reader
 # hands out after the same reader has reported an error is the message the static parser gives
-EQUIV = {"reader-after-error": "parse"}
+EQUIV = {"reader-after-error": "parse", "reader-after-filler": "parse"}
 
 
 def snapshot():
@@ -67,6 +67,18 @@ def observe(payload, kind):
             msg = RTCMMessage(payload=payload, labelmsm=2)
         elif kind == "parse":
             msg = RTCMReader.parse(pinned.frame(payload))
+        elif kind == "reader-after-filler":
+            # the same reader has first met legal frames that carry no message (zero-length
+            # filler, one-byte payload) and foreign traffic
+            frame = pinned.frame(payload)
+            pre = pinned.frame(b"") + b"$GNGGA,1*00\r\n" + pinned.frame(b"\x3e") + b"\x00\xff"
+            rdr = RTCMReader(io.BytesIO(pre + frame), quitonerror=0)
+            _raw, msg = rdr.read()
+            if msg is None and _raw is not None:
+                return ("exc", "RawWithoutMessage", 0)
+            if msg is None:
+                # the frame itself does not parse: the static parser's own error is the reference
+                msg = RTCMReader.parse(frame)
         elif kind == "reader-after-error":
             from mc.readerharness import lib_exceptions  # pylint: disable=import-outside-toplevel
 
@@ -565,6 +577,7 @@ def run(tier, seed, t0):
         cases_.append({"kind": "hist", "history": [(a["payload"], "msg1"), (b["payload"], "msg1")]})
     for it in corp:
         cases_.append({"kind": "hist", "history": [(it["payload"], "reader-after-error")], "snap_each": True})
+        cases_.append({"kind": "hist", "history": [(it["payload"], "reader-after-filler")], "snap_each": True})
     for a, b in itertools.product(conflict, repeat=2):
         for ka, kb in itertools.product(KINDS + ("reader-after-error",), repeat=2):
             if (ka, kb) != ("msg1", "msg1"):
